@@ -29,24 +29,35 @@ MODEL_FILES = ["Namer/Namer.v", "Namer/NamerProofs.v", "Namer/SanitizeProofs.v",
                "Namer/SpecBase.v", "Namer/SpecHlsl.v", "Namer/SpecMsl.v", "Namer/SpecGlsl.v", "Namer/NamerInst.v"]
 WANT = ["hlsl", "msl", "glsl"]
 
-# classes of generated spellings (stable keys for findings); first match wins
-PATTERNS = [
-    (r"^Construct", "Construct{T}"), (r"^ZeroValue", "ZeroValue{T}"),
-    (r"^(Vertex|Fragment|Compute)(Input|Output)_", "{Stage}{Input|Output}_{ep}"),
-    (r"^(vertex|fragment|compute)(input|output)_", "{stage}{input|output}_{ep}"),
-    (r"^_group_\d+_binding_\d+_(vs|fs|cs)$", "_group_N_binding_N_{stage}"),
-    (r"_block_\d+(Vertex|Fragment|Compute)$", "{T}_block_N{Stage}"),
-    (r"^(Get|Set)Mat(Vec|Scalar)?.*On", "{Get|Set}Mat..On{T}"),
-    (r"^LoadedStorageValueFrom", "LoadedStorageValueFrom{T}"),
-    (r"^NagaBufferLength", "NagaBufferLength[RW]"), (r"^Naga(MS|RW|Mip|External)?(Dimensions|NumLevels|NumLayers|NumSamples)", "Naga..Dimensions.."),
-    (r"^naga[A-Z]", "naga{Helper}"), (r"^_?naga_", "naga_{helper}"),
-    (r"^zq[a-z]+v(Input|Output)$", "{ep}{Input|Output}"),
-    (r"^ret_", "ret_{helper}"),
-]
+# Classes of spellings the writers generate themselves without asking the namer (stable keys for findings;
+# first match wins; `zq..v` are the benign baseline names of user entities).
+PATTERNS = {
+    "hlsl": [
+        (r"^(Construct|ZeroValue|LoadedStorageValueFrom|RayDescFrom)|^(Get|Set)Mat(Vec|Scalar)?.*On|^ret_|^Naga[A-Z]|^_?naga_|^nagaTexture|^__(get|set)_",
+         "helper-function-name"),
+        (r"^naga(Comparison)?SamplerHeap$", "sampler-heap-name"),
+        (r"^(Vertex|Fragment|Compute)(Input|Output)_", "{Stage}{Input|Output}_{ep}"),
+        (r"^(ret|arg\d+|obj|mat|vec|scalar|mat_idx|vec_idx|lhs|rhs|val|value|arg)$", "helper-local-name"),
+    ],
+    "msl": [
+        (r"^_?naga_|^naga[A-Z]|^Naga[A-Z]|^_map_intersection_type$|^_RayQuery$|^RayIntersection$", "helper-name"),
+        (r"^_tmp$", "_tmp"),
+    ],
+    "glsl": [
+        (r"^_group_\d+_binding_\d+_(vs|fs|cs)$", "_group_N_binding_N_{stage}"),
+        (r"^_immediates_binding_(vs|fs|cs)$", "_immediates_binding_{stage}"),
+        (r"^gl_", "gl_-prefix"),
+        (r"_block_\d+(Vertex|Fragment|Compute)$", "{T}_block_N{Stage}"),
+        (r"^_?naga_|^Naga[A-Z]", "helper-name"),
+        (r"^_tmp_return$", "_tmp_return"),
+    ],
+}
 
 
-def pattern_of(spelling):
-    for rx, name in PATTERNS:
+def pattern_of(spelling, backend=None):
+    if re.match(r"^NagaExternalTexture(Params|TransferFn)$", spelling):
+        return "special-type-name"         # IR special types the front end creates and finds again by name
+    for rx, name in PATTERNS.get(backend, []):
         if re.search(rx, spelling):
             return name
     s = re.sub(r"zq[a-z]+v", "{}", spelling)
@@ -99,7 +110,7 @@ def fresh_targets(rng, pool, used, k):
     while len(out) < k and tries < 200 and pool:
         tries += 1
         w = rng.choice(pool)
-        if w in used or not P.wgsl_ident_ok(w) or P.predeclared_like(w):
+        if w in used or not P.wgsl_ident_ok(w) or P.predeclared_like(w) or w in P.EXCLUDED_TARGETS:
             continue
         used.add(w)
         out.append(w)
@@ -160,7 +171,7 @@ def check_text(backend_key, base, new, info, ep_names, spec, rep, files, kind, p
             return
     fwd, conflicts = P.id_map(bt, nt)
     if fwd is None:
-        stats.setdefault("shape_changes", []).append((b, dict(plan), conflicts, files))
+        stats.setdefault("shape_changes", []).append((b, dict(plan), conflicts, files, stats.get("_c")))
         return
     for i, mb, mv in P.member_diffs(bt, nt)[:3]:
         rep.report("%s:undeclared-member" % b,
@@ -169,10 +180,22 @@ def check_text(backend_key, base, new, info, ep_names, spec, rep, files, kind, p
     # every reference must resolve (C scoping, independent scan) to the declaration it resolves to in the baseline
     diffs = P.resolution_diffs(bt, nt)
     for i, db, dn in diffs[:3]:
-        rep.report("%s:misresolved:%s" % (b, pattern_of(nt[i][1])),
+        name = nt[i][1]
+        if dn is None and db is not None and name in plan.values():
+            # the user's declaration is spelled differently (escaped) while this use keeps the raw name and now denotes
+            # a builtin of the target language: the front end bound the call to a predeclared function of that name
+            rep.report("frontend:predeclared-shadow",
+                       what_prefix + "emits a use of %r (token %d) that no longer refers to the user's declaration (token %d, %r) "
+                       "but to the builtin of that name: the WGSL front end resolved the call to the predeclared function" % (
+                           name, i, db, nt[db][1]), files)
+            continue
+        cls = pattern_of(name, b)
+        if db is None and bt[i][1] == name and cls == re.sub(r"\d+", "N", name):
+            cls = "target-builtin-name"      # a builtin of the target language that the writer emits and the table lacks
+        rep.report("%s:clash:%s" % (b, cls),
                    what_prefix + "makes the identifier %r (token %d, baseline %r) resolve to %s instead of %s: "
                    "the reference no longer denotes the entity the author meant" % (
-                       nt[i][1], i, bt[i][1],
+                       name, i, bt[i][1],
                        "the declaration at token %d (%r)" % (dn, nt[dn][1]) if dn is not None else "no declaration (a builtin of the target language)",
                        "the declaration at token %d (%r)" % (db, nt[db][1]) if db is not None else "no declaration (a builtin of the target language)"), files)
     stats["references_resolved"] = stats.get("references_resolved", 0) + len(nt)
@@ -184,7 +207,7 @@ def check_text(backend_key, base, new, info, ep_names, spec, rep, files, kind, p
             key = "%s:reserved:%s" % (b, why if why != "keyword" else "keyword:" + v)
             rep.report(key, what_prefix + "emits the identifier %r, which is not a legal non-reserved identifier of the target language (%s)" % (v, why), files)
     for vkind, name, where in P.scope_violations(nt):
-        rep.report("%s:%s:%s" % (b, vkind, pattern_of(name)),
+        rep.report("%s:clash:%s" % (b, pattern_of(name, b)),
                    what_prefix + "emits two declarations of %r in one scope (%s, %s)" % (name, vkind, where), files)
     # entry-point name mapping
     eps = (info or {}).get("EntryPointNames") or []
@@ -270,7 +293,7 @@ def whole_program(ctx, tools, spec, tables, n_corpus, n_variants, rep):
                     harvest.add(t)
             # the baseline itself: scopes and entry points
             for vkind, nm, where in P.scope_violations(tk):
-                rep.report("%s:%s:%s" % (bk.split(":")[0], vkind, pattern_of(nm)),
+                rep.report("%s:clash:%s" % (bk.split(":")[0], pattern_of(nm, bk.split(":")[0])),
                            "%s: the output for %s declares %r twice in one scope (%s, %s)" % (bk, c["name"], nm, vkind, where),
                            {"input.wgsl": c["src"], "output.txt": text})
         r = rng.fork("prog/" + c["name"])
@@ -322,7 +345,9 @@ def check_variants(ctx, tools, vjobs, meta, spec, rep, stats):
                 rep.report("%s:rejected:%s" % (bk.split(":")[0], re.sub(r"\d+", "N", str(vinfo))[:60]),
                            "%s: the backend accepts the baseline but rejects the renamed program %s: %s" % (bk, plan, vinfo), f2)
                 continue
+            stats["_c"] = c
             check_text(vk, btext, vtext, vinfo, eps, spec, rep, f2, kind, plan, stats)
+            stats.pop("_c", None)
             if len(ctx.cov["samples"]) < 5 and kind not in ("unicode", "probe") and bk == "hlsl":
                 ctx.sample({"program": c["name"], "variant": kind, "renaming": plan})
 
@@ -335,7 +360,7 @@ def classify_shape_changes(ctx, tools, stats, rep):
     changes = stats.pop("shape_changes", [])
     if not changes:
         return
-    words = sorted({t for _b, plan, _w, _f in changes for t in plan.values()})
+    words = sorted({t for _b, plan, _w, _f, _c in changes for t in plan.values()})
     t = lexcorr.tokens_impl(tools, [PROBE_TEMPLATE.encode()])[0]
     lex, kinds = lexeme_list(t)
     declared, frozen = P.classify(lex, kinds)
@@ -359,7 +384,35 @@ def classify_shape_changes(ctx, tools, stats, rep):
                 frontend[w] = (slot, why, src)
     stats["shape_changes_total"] = len(changes)
     stats["shape_changes_frontend"] = 0
-    for b, plan, why, files in changes:
+    single_cache = {}
+
+    def culprits(b, plan, c):
+        """the renamings of `plan` that alone change the shape of backend b's output for program c"""
+        if c is None or len(plan) == 0:
+            return []
+        key = (id(c), b)
+        jobs = []
+        for k, v in sorted(plan.items()):
+            if (key, k, v) not in single_cache:
+                jobs.append({"id": "%s=%s" % (k, v), "src": " ".join(P.rename(c["lex"], c["kinds"], c["frozen"], {k: v})), "want": [b], "_kv": (k, v)})
+        if jobs:
+            r = nagarun.parallel_batches(tools["nagadrive"], "compile", [{x: j[x] for x in ("id", "src", "want")} for j in jobs],
+                                         per_job_timeout=30.0, chunk=16)
+            for j in jobs:
+                o = outputs(r.get(j["id"])) or {}
+                changed = False
+                for bk, (btext, _i) in c["out"].items():
+                    if bk.split(":")[0] != b or btext == "ERR":
+                        continue
+                    eps = dict(zip(entry_points(c["lex"]), entry_points(P.rename(c["lex"], c["kinds"], c["frozen"], dict([j["_kv"]])))))
+                    vk = "glsl:" + eps.get(bk[5:], bk[5:]) if bk.startswith("glsl:") else bk
+                    if vk in o and o[vk][0] != "ERR":
+                        fwd, _w = P.id_map(ctok.tokens(btext), ctok.tokens(o[vk][0]))
+                        changed = changed or fwd is None
+                single_cache[(key,) + j["_kv"]] = changed
+        return [v for k, v in sorted(plan.items()) if single_cache.get((key, k, v))]
+
+    for b, plan, why, files, c in changes:
         hit = [w for w in plan.values() if w in frontend]
         if hit:
             stats["shape_changes_frontend"] += 1
@@ -372,9 +425,11 @@ def classify_shape_changes(ctx, tools, stats, rep):
                        "[first seen: %s, renaming %s]" % ("function" if slot == "zqfv" else "type", hit[0], fwhy, b,
                                                            json.dumps(plan, ensure_ascii=False)), f2)
         else:
-            rep.report("%s:shape:%s" % (b, ",".join(sorted(pattern_of(t) for t in plan.values()))[:80]),
-                       "%s: renaming %s changes the emitted code beyond a renaming of identifiers (%s)" % (
-                           b, json.dumps(plan, ensure_ascii=False), why), files)
+            cul = culprits(b, plan, c)
+            names = cul if cul else sorted(plan.values())
+            rep.report("shape:%s" % ",".join(sorted({pattern_of(t, b) for t in names}))[:80],
+                       "%s: renaming %s changes the emitted code beyond a renaming of identifiers (%s); renamings that alone "
+                       "have this effect: %s" % (b, json.dumps(plan, ensure_ascii=False), why, cul), files)
 
 
 PROBE_TEMPLATE = ("struct zqsv { zqav: f32, zqmv: i32, }\nvar<private> zqgv: f32 = 1.0;\n"
@@ -406,7 +461,7 @@ def keyword_probe(ctx, tools, spec, rep, words_per_backend):
     for w in sorted(words):
         if not P.wgsl_ident_ok(w):
             continue
-        for slot in PROBE_SLOTS:
+        for slot in (PROBE_SLOTS if (ctx.thorough or words_per_backend > 1000) else ["zqsv", "zqav", "zqgv", "zqfv", "zqlv"]):
             if P.predeclared_like(w) and slot in ("zqsv", "zqfv"):
                 continue              # a called function / a type named like a WGSL predeclared name: predeclared_probe
             plan = {slot: w}
@@ -455,7 +510,7 @@ def run(ctx):
             gen_writer=lambda: gen.regenerate(tools, ["keywords"]), extra_obligation_files=["Namer/NamerInst.v"])
         # a scratch file of a concurrently running bin/coqgoal (coq/build_goal_*.v) can appear in _CoqProject and
         # vanish before make reads it: that is not a failure of this development, run make again
-        if ok or "No rule to make target 'build_goal_" not in log:
+        if ok or "build_goal_" not in log:
             break
         time.sleep(2)
     T["coq"] = round(time.time() - t0, 1); t0 = time.time()
@@ -483,7 +538,7 @@ def run(ctx):
     ncmp = 0
     if ok:
         exe = ocamlbuild.build("namer")
-        jobs = namercorr.gen_sequences(ctx.rng.fork("ops"), ctx.scale(1500, 60000), tables)
+        jobs = namercorr.gen_sequences(ctx.rng.fork("ops"), ctx.scale(1200, 60000), tables)
         ncmp, mism, cstats = namercorr.compare(tools, exe, jobs)
         ctx.cov["namer_correspondence"] = dict(cstats, compared=ncmp, mismatches=len(mism))
         ctx.cov["traces_validated_against_impl"] = ncmp
@@ -493,9 +548,9 @@ def run(ctx):
     T["namer_correspondence"] = round(time.time() - t0, 1); t0 = time.time()
     # the search on the implementation (always run)
     before = len(ctx.violations)
-    wstats = whole_program(ctx, tools, spec, tables, ctx.scale(26, 172), ctx.scale(10, 60), rep)
+    wstats = whole_program(ctx, tools, spec, tables, ctx.scale(14, 172), ctx.scale(8, 60), rep)
     T["whole_program"] = round(time.time() - t0, 1); t0 = time.time()
-    pstats = keyword_probe(ctx, tools, spec, rep, ctx.scale(30, 10000))
+    pstats = keyword_probe(ctx, tools, spec, rep, ctx.scale(12, 10000))
     T["keyword_probe"] = round(time.time() - t0, 1); t0 = time.time()
     rstats = replay_witnesses(ctx, tools, rep)
     ctx.cov["stage_seconds"] = T
